@@ -4,6 +4,7 @@
 # usage: scratch_check.sh <patch.diff | -> <property> [tier=quick]
 # prints: exit=<code> :: <first violation / check-error line>
 patch=$1; prop=$2; tier=${3:-quick}
+[ "$patch" != "-" ] && patch=$(readlink -f "$patch")
 export GOFLAGS=-mod=mod GOPROXY=off GOSUMDB=off GOTOOLCHAIN=local
 S=$(mktemp -d /tmp/scr_XXXXXX)
 trap 'git -C /repo worktree remove --force $S/repo >/dev/null 2>&1; rm -rf $S' EXIT
